@@ -1,6 +1,6 @@
 (* C17 — reports are independent of environment, history and concurrency. *)
-From ASModel Require Import Base Shared PathRes SrcLoc Report Display.
-From ASProofs Require Import PathResP SharedP ReportDetP.
+From ASModel Require Import Base Shared SharedT PathRes SrcLoc Report Display.
+From ASProofs Require Import PathResP SharedP SharedTP ReportDetP.
 
 (* The source cache (SOURCE_CACHE behind a RwLock, read-then-insert) as a transition system:
    any number of threads, each executing cached_source(path) as the atomic steps
@@ -80,3 +80,38 @@ Proof. vm_compute. reflexivity. Qed.
 (* the boolean flag the code had before the repair: new; new; drop left it clear with a guard alive *)
 Example c17_guard_old_refuted : exists h, live h 0 = 1 /\ fold_left guard_step_old h false = false.
 Proof. exact guard_old_refuted. Qed.
+
+(* ---- the files' READABILITY changes while the process runs (Model/SharedT.v): a source file is moved away while it is rewritten,
+   comes back; whenever it can be read its text is the same ---- *)
+
+(* under any interleaving and any history of readability, nothing but a file's own text is ever cached, about to be cached or returned *)
+Theorem c17_cache_invariant_over_changing_readability : forall content readable schedule t st,
+  SharedTP.tinv content st -> SharedTP.tinv content (SharedT.run_from content readable t st schedule).
+Proof. exact SharedTP.timed_cache_inv. Qed.
+Print Assumptions c17_cache_invariant_over_changing_readability.
+
+(* a failed read leaves no trace in the cache *)
+Theorem c17_failed_read_is_not_remembered : forall content readable t c p,
+  readable t p = false ->
+  step_call (SharedT.fs_at content readable t) c {| c_path := p; c_pc := PRead |} = (c, {| c_path := p; c_pc := PDone None |}).
+Proof. exact SharedTP.failed_read_is_not_remembered. Qed.
+Print Assumptions c17_failed_read_is_not_remembered.
+
+(* `whatever other assertions failed earlier in the process`: in a history of reports, every report made while its file can be read
+   shows that file's text - earlier reports of the same file made while it could not be read change nothing *)
+Theorem c17_report_while_readable_ignores_the_history : forall content readable ops t c i p,
+  SharedTP.tcache_ok content c -> nth_error ops i = Some p -> readable (S (3 * i + t)) p = true ->
+  nth_error (SharedT.reports_from content readable t c ops) i = Some (Some (content p)).
+Proof. exact SharedTP.history_reports. Qed.
+Print Assumptions c17_report_while_readable_ignores_the_history.
+
+(* and a report made while the file cannot be read shows the cached text if there is one, otherwise nothing (the fallback listing) *)
+Theorem c17_report_while_unreadable : forall content readable t c p,
+  readable (S t) p = false -> snd (SharedT.report_at content readable t c p) = cache_get p c.
+Proof. exact SharedTP.report_while_unreadable. Qed.
+Print Assumptions c17_report_while_unreadable.
+
+(* non-vacuity: unreadable, reported, readable again, reported: the second report is the text *)
+Example c17_unreadable_then_readable :
+  SharedT.reports_from (fun _ => "TEXT"%string) (fun t _ => Nat.leb 3 t) 0 [] ["a.rs"%string; "a.rs"%string] = [None; Some "TEXT"%string].
+Proof. exact eq_refl. Qed.
